@@ -197,6 +197,9 @@ class Exec(StmtMixin):
         res = o.val if o.kind == "return" and o.val is not None else NONEV
         if res.ty == PYOBJ and res.t.kind == "awaited":
             res = res.t.value
+        if c.ret is not None and res.ty == PYOBJ and res.t.kind in ("emptylist", "emptyset", "emptydict") \
+                and isinstance(c.ret, (List, Set, Dict)):
+            res = self.empty_container(c.ret)             # `return []` where the contract declares the container type
         if c.ret is not None and res.ty != PYOBJ:
             cv = self.coerce_to(st, res, c.ret, "result")
             if cv is None:
